@@ -465,7 +465,7 @@ func newEngine(c vCase) *vEngine {
 	e.tr = e.xp.(*transport)
 	var u ErrorUnwrapper
 	if c.get("unwrap") != "0" {
-		u = vUnwrapper{}
+		u = vHookUnwrapper{e.hooks}
 	}
 	var tf LogTagsFromContext
 	if spec := c.get("tagkeys"); spec != "" && spec != "-" {
@@ -477,7 +477,7 @@ func newEngine(c vCase) *vEngine {
 		}
 		tf = func(ctx context.Context) (map[interface{}]string, bool) { return e.tagKeys, true }
 	}
-	sn := func(q SeqNumber) { e.ev.add("sn/%d", q) }
+	sn := func(q SeqNumber) { e.ev.add("sn/%d", q); e.hooks.hit("SendNotifier") }
 	e.cli = NewClientWithSendNotifier(e.xp, u, tf, sn)
 	e.srv = NewServer(e.xp, wef)
 	if spec := c.get("protocols"); spec != "" && spec != "-" {
@@ -826,6 +826,9 @@ func (e *vEngine) op(f []string) {
 	case "sample": // sample/<tag>
 		e.settle()
 		e.ev.add("sample/%s/%s", f[1], e.sample())
+		if b := e.bufs(); b != "" {
+			e.ev.add("bufs/%s", b)
+		}
 		if !e.xp.IsConnected() {
 			if d := e.dumpDelta(); d != "" {
 				e.ev.add("dump/%s", strings.ReplaceAll(strings.ReplaceAll(strings.ReplaceAll(d, "/", "|"), ";", ","), " ", "_"))
@@ -943,6 +946,42 @@ func (e *vEngine) op(f []string) {
 		n, _ := strconv.Atoi(f[1])
 		time.Sleep(time.Duration(n) * time.Millisecond)
 	}
+}
+
+// the unwrapper of the engine's client: generic error values, with park points inside reply decoding
+// (after the pending call was looked up, before the result is decoded)
+type vHookUnwrapper struct{ h *vHooks }
+
+func (u vHookUnwrapper) MakeArg() interface{} { u.h.hit("UnwrapMakeArg"); return new(interface{}) }
+func (u vHookUnwrapper) UnwrapError(arg interface{}) (error, error) {
+	u.h.hit("UnwrapError")
+	return vUnwrapper{}.UnwrapError(arg)
+}
+
+// bufs: for every returned call, does its result buffer still print as it did when the call returned?
+func (e *vEngine) bufs() string {
+	var parts []string
+	ids := make([]string, 0, len(e.calls))
+	for id := range e.calls {
+		ids = append(ids, id)
+	}
+	sort.Strings(ids)
+	for _, id := range ids {
+		cs := e.calls[id]
+		if cs.res == nil {
+			continue
+		}
+		select {
+		case <-cs.done:
+			same := "1"
+			if vPrint(*cs.res) != cs.snap {
+				same = "0"
+			}
+			parts = append(parts, id+"="+same)
+		default:
+		}
+	}
+	return strings.Join(parts, ",")
 }
 
 func (e *vEngine) torn() bool { return atomic.LoadInt32(&e.tornDown) != 0 }
